@@ -3,7 +3,10 @@
    Slices: every subject key type x every issuing signer model (incl. each ECDSA DER length);
    issuer-id forms x start instants x durations x time zones for derive_cert; clocks for
    self_sign / sign_req (incl. 29 February, version-number width boundaries).
-   Public-key lengths are measured from the run's key pool and passed as constants.      *)
+   The bytes of the subject key: every encoding of every key type x every issuing call x buffer kinds (KeyForms).
+   Public-key lengths (canonical SubjectPublicKeyInfo) are measured from the run's key pool and passed as
+   constants; the lengths of the other encodings are functions of the key type (EncLen; the executor refuses
+   to run a request whose publen is not the length of the bytes it built).                               *)
 EXTENDS NdnPacketsCert
 CONSTANTS Scale, LenEc256, LenEc384, LenRsa, LenEd
 
@@ -42,7 +45,7 @@ Lit(n) == IF n = 1 THEN <<"", "KEY", "">> ELSE <<"", "", "KEY", "">>
 ReqF(fn, subj, kn, iss, idform, sg, clock, start, dur, tz, tz2) ==
   [fn |-> fn, subj |-> subj, keyname |-> KeyName(kn), lit |-> Lit(kn), publen |-> PubLen(subj), issuer |-> iss,
    idform |-> idform, sg |-> sg, clock |-> clock, start |-> start, dur |-> dur, tz |-> tz, tz2 |-> tz2,
-   zone |-> "", host |-> "UTC"]
+   zone |-> "", host |-> "UTC", enc |-> "spki", pubbuf |-> "bytes"]
 \* the issuer id of a generic component as plain text, of any other as an encoded component
 Req(fn, subj, kn, iss, sg, clock, start, dur, tz) ==
   ReqF(fn, subj, kn, iss, IF fn = "derive" /\ iss.t = 8 /\ iss.l > 0 THEN "plain" ELSE "comp", sg, clock, start, dur, tz, tz)
@@ -116,6 +119,33 @@ SizedBase == { Req("derive", "ed25519", 1, C(8, 3), SgI("ecdsa", 72, a, TRUE), N
 SizeCands(r) == UNION { { n \in (b - (Reserved(CertCfg(Sized(r, 1))).len - 1) - 6)..(b - (Final(CertCfg(Sized(r, 1))).len - 1) + 6) : n >= 0 } : b \in OuterBnd }
 OuterBoundary == UNION { { Sized(r, n) : n \in { m \in SizeCands(r) : Reserved(CertCfg(Sized(r, m))).len \in OuterBnd
                                                                        \/ Final(CertCfg(Sized(r, m))).len \in OuterBnd } } : r \in SizedBase }
+\* the bytes of the subject key as the caller hands them over: every encoding of every key type (and bytes that
+\* are no key: empty, one byte, key-sized, long) through every issuing call, in every kind of buffer
+EncLen(k, e) ==
+  IF e = "spki" THEN PubLen(k)
+  ELSE IF k = "ec256" THEN (CASE e = "spki-compressed" -> 59 [] e = "spki-explicit" -> 311 [] e = "pem" -> 177 [] e = "pem-compressed" -> 133
+                              [] e = "openssh" -> 161 [] e = "point" -> 65 [] e = "point-compressed" -> 33)
+  ELSE IF k = "ec384" THEN (CASE e = "spki-compressed" -> 72 [] e = "spki-explicit" -> 441 [] e = "pem" -> 214 [] e = "pem-compressed" -> 149
+                              [] e = "openssh" -> 205 [] e = "point" -> 97 [] e = "point-compressed" -> 49)
+  ELSE IF k = "rsa" THEN (CASE e = "spki-noparams" -> LenRsa - 2 [] e = "pkcs1" -> LenRsa - 24 [] e = "pkcs1-padded" -> LenRsa - 23
+                            [] e = "pem" -> 450 [] e = "pem-pkcs1" -> 425 [] e = "openssh" -> 380)
+  ELSE (CASE e = "pem" -> 112 [] e = "openssh" -> 81 [] e = "raw" -> 32)
+OpaqueLens == {0, 1, 32, 300} \cup (IF Thorough THEN {253, 70000} ELSE {})
+WithKey(r, e, b, n) == [r EXCEPT !.enc = e, !.pubbuf = b, !.publen = n]
+OwnSg(k) == IF k = "ec256" THEN SgI("ecdsa", 72, 71, TRUE) ELSE IF k = "ec384" THEN SgI("ecdsa", 104, 103, TRUE)
+            ELSE IF k = "rsa" THEN SgI("rsa", 256, 256, TRUE) ELSE SgI("ed25519", 64, 64, TRUE)
+KeyFormBase(fn, k) ==
+  IF fn = "derive" THEN Req("derive", k, 1, C(8, 3), SgI("hmac", 32, 32, TRUE), NormalClock, At(2024, 5, 6, 7, 8, 9), 3600, Naive)
+  ELSE IF fn = "new_cert" THEN ReqF("new_cert", k, 1, C(8, 3), "comp", SgI("hmac", 32, 32, TRUE), NormalClock, At(2024, 5, 6, 7, 8, 9), 3600, 0, 0)
+  ELSE Req(fn, k, 1, C(8, 0), OwnSg(k), NormalClock, Epoch, 0, Naive)
+IssuingFns == {"self_sign", "sign_req", "derive", "new_cert"}
+\* quick: every buffer kind through derive_cert, one (different) writable or viewed kind through each of the others
+BufsFor(fn) == IF Thorough \/ fn = "derive" THEN BufKinds
+               ELSE IF fn = "self_sign" THEN {"bytearray"} ELSE IF fn = "sign_req" THEN {"memoryview-slice"} ELSE {"memoryview"}
+KeyForms ==
+  UNION { { WithKey(KeyFormBase(fn, k), e, b, EncLen(k, e)) : e \in EncsOf(k) \ {"opaque"}, b \in BufsFor(fn) } : fn \in IssuingFns, k \in SubjTypes }
+  \cup UNION { { WithKey(KeyFormBase(fn, k), "opaque", b, n) : n \in OpaqueLens, b \in BufsFor(fn) } :
+                 fn \in IssuingFns, k \in (IF Thorough THEN SubjTypes ELSE {"ed25519"}) }
 DeriveClocks == { Req("derive", "ed25519", 1, C(8, 3), SgI("hmac", 32, 32, TRUE), ck, Epoch, 1, Naive) : ck \in Clocks }
 Own(fn) == UNION { { Req(fn, k, kn, C(8, 0), s, ck, Epoch, 0, Naive) :
                        kn \in (IF Thorough THEN {1, 2} ELSE {1}), s \in OwnSigners(k),
@@ -123,6 +153,6 @@ Own(fn) == UNION { { Req(fn, k, kn, C(8, 0), s, ck, Epoch, 0, Naive) :
                    k \in SubjTypes }
 
 ReqSpace == { q \in DeriveSigners \cup DeriveTimes \cup DeriveClocks \cup DeriveIssuerIds \cup NewCertZones \cup OddIdentities
-                    \cup HostZones \cup DstZones \cup EarlyYears \cup OuterBoundary
+                    \cup HostZones \cup DstZones \cup EarlyYears \cup OuterBoundary \cup KeyForms
                     \cup Own("self_sign") \cup Own("sign_req") : InScope(q) }
 =============================================================================
